@@ -108,9 +108,8 @@ func doesUintPassRangeFilter(op sutils.FilterOperator, lookupValue uint64, minVa
 	case sutils.Equals:
 		return lookupValue >= minVal && lookupValue <= maxVal
 	case sutils.NotEquals:
-		if minVal == maxVal && lookupValue == minVal {
-			return false
-		}
+		// a block cannot be excluded for '!=': records that do not have the
+		// column at all satisfy it, and the range index does not know about them
 		return true
 	case sutils.GreaterThan:
 		return lookupValue < minVal || lookupValue < maxVal
@@ -132,9 +131,8 @@ func doesIntPassRangeFilter(op sutils.FilterOperator, lookupValue int64, minVal 
 	case sutils.Equals:
 		return lookupValue >= minVal && lookupValue <= maxVal
 	case sutils.NotEquals:
-		if minVal == maxVal && lookupValue == minVal {
-			return false
-		}
+		// a block cannot be excluded for '!=': records that do not have the
+		// column at all satisfy it, and the range index does not know about them
 		return true
 	case sutils.GreaterThan:
 		return lookupValue < minVal || lookupValue < maxVal
@@ -156,9 +154,8 @@ func doesFloatPassRangeFilter(op sutils.FilterOperator, lookupValue float64, min
 	case sutils.Equals:
 		return lookupValue >= minVal && lookupValue <= maxVal
 	case sutils.NotEquals:
-		if minVal == maxVal && lookupValue == minVal {
-			return false
-		}
+		// a block cannot be excluded for '!=': records that do not have the
+		// column at all satisfy it, and the range index does not know about them
 		return true
 	case sutils.GreaterThan:
 		return lookupValue < minVal || lookupValue < maxVal
